@@ -236,17 +236,25 @@ def family_geometry(rng, fid):
             rows.append((t0, t1, c0, c1))
         return rows
 
-    def segments(rows):
+    vary_lengths = rng.random() < 0.5
+    sec_lengths = []
+    for k in range(n):
+        ls = [wg.R(L * rng.uniform(0.5, 1.5)) if vary_lengths else L for L in lengths]
+        if vary_lengths and nseg == 2 and rng.random() < 0.3:
+            ls[rng.randrange(2)] = 0.0          # a segment that is absent at this coordinate and grows towards the neighbours
+        sec_lengths.append(ls)
+
+    def segments(rows, ls=None):
         out = []
-        for L, (t0, t1, c0, c1) in zip(lengths, rows):
+        for L, (t0, t1, c0, c1) in zip(ls or lengths, rows):
             sg = {'length': L, 'thickness': [t0, t1], 'angle': [ang]}
             if not fault:
                 sg['top truncation'] = [c0, c1]
             out.append(sg)
         return out
     tables = [table() for _ in range(n)]
-    f['segments'] = segments(tables[0])
-    f['sections'] = [{'coordinate': k, 'segments': segments(tables[k])} for k in range(n)]
+    f['segments'] = segments(tables[0], sec_lengths[0])
+    f['sections'] = [{'coordinate': k, 'segments': segments(tables[k], sec_lengths[k])} for k in range(n)]
     f['composition models'] = [{'model': 'uniform', 'compositions': [0], 'fractions': [0.75]}]
     d = dict(doc0)
     d['features'] = [f]
@@ -270,9 +278,17 @@ def family_geometry(rng, fid):
         j = rng.randrange(n - 1)
         fr = rng.uniform(0.03, 0.97)
         px, py = tr[j][0] + fr * (tr[j + 1][0] - tr[j][0]), tr[j][1] + fr * (tr[j + 1][1] - tr[j][1])
+        lens_here = [sec_lengths[j][q] + fr * (sec_lengths[j + 1][q] - sec_lengths[j][q]) for q in range(nseg)]
         sgi = rng.randrange(nseg)
         u = rng.uniform(0.05, 0.95)
-        s_al = sum(lengths[:sgi]) + u * lengths[sgi]
+        if lens_here[sgi] < 1e3:
+            continue
+        s_al = sum(lens_here[:sgi]) + u * lens_here[sgi]
+        beyond = vary_lengths and rng.random() < 0.25
+        if beyond:
+            # around the down-dip end: the interpolated total length decides
+            sgi, u = nseg - 1, 1.0
+            s_al = sum(lens_here) * (1.0 + rng.choice([-1, 1]) * rng.uniform(0.01, 0.08))
         # rough bounds with the arc fraction, to aim the point; the judgement uses the library's fraction
         def lerp2(col, frac):
             A = tables[j][sgi][col] + u * (tables[j][sgi][col + 1] - tables[j][sgi][col])
@@ -282,7 +298,10 @@ def family_geometry(rng, fid):
         span = (th - tc) if not fault else th
         bound = rng.choice(['thickness', 'thickness', 'truncation']) if not fault else 'thickness'
         eps = rng.choice([-1, 1]) * rng.uniform(0.005, 0.08) * span
-        if fault:
+        if beyond:
+            bound = 'length'
+            nn = (rng.uniform(-0.3, 0.3) * th) if fault else (tc + rng.uniform(0.3, 0.7) * (th - tc))
+        elif fault:
             nn = rng.choice([-1, 1]) * (0.5 * th + eps)
         else:
             nn = (th if bound == 'thickness' else tc) + eps
@@ -292,8 +311,8 @@ def family_geometry(rng, fid):
             continue        # above the feature's min depth: outside whatever the thickness
         sx, sy, dep = px + nx * hh, py + ny * hh, d0 + vv
         ib = c.add('bez_close', 1, 'c', core.hx(sx), core.hx(sy))
-        plan.append({'j': j, 'sgi': sgi, 'u': u, 'nn': nn, 'bound': bound, 'point': (sx, sy, dep), 'ib': ib, 'iq': q3(c, 1, ctx, sx, sy, dep, PROPS)})
-    return c, {'kind': 'geometry', 'plan': plan, 'fid': fid, 'tables': tables, 'fault': fault, 'feature': f, 'n': n}
+        plan.append({'j': j, 'sgi': sgi, 'u': u, 'nn': nn, 'bound': bound, 's_al': s_al, 'point': (sx, sy, dep), 'ib': ib, 'iq': q3(c, 1, ctx, sx, sy, dep, PROPS)})
+    return c, {'kind': 'geometry', 'plan': plan, 'fid': fid, 'tables': tables, 'fault': fault, 'feature': f, 'n': n, 'sec_lengths': sec_lengths, 'vary_lengths': vary_lengths}
 
 
 def check_geometry(V, c, t):
@@ -314,6 +333,35 @@ def check_geometry(V, c, t):
         if sec != p['j'] or not (0.0 <= frac <= 1.0):
             continue
         sgi, u = p['sgi'], p['u']
+        if t['vary_lengths']:
+            # lengths interpolated along strike decide which segment holds the point and where in it
+            SL = t['sec_lengths']
+            lens = [SL[sec][q] + frac * (SL[sec + 1][q] - SL[sec][q]) for q in range(len(SL[sec]))]
+            s_al = p['s_al']
+            total = sum(lens)
+            V.count()
+            inside = vals(rq)[3] >= 0
+            detail = {'family': t['fid'], 'point': p['point'], 'section': sec, 'fraction': frac, 'distance_along_the_plane': s_al, 'distance_below_the_plane': p['nn'],
+                      'lengths_of_the_two_sections': (SL[sec], SL[sec + 1]), 'interpolated_lengths': lens, 'library_inside': inside, 'feature': t['feature']}
+            if abs(s_al - total) < 2e-3 * total:
+                continue
+            if s_al > total:
+                if inside:
+                    V.violation('interpolation:length-differs-from-the-linear-combination:point-beyond-the-interpolated-length-is-inside', detail)
+                V.nontrivial((t['fid'], p['point']))
+                continue
+            acc = 0.0
+            sgi = None
+            for q, Lq in enumerate(lens):
+                if s_al < acc + Lq:
+                    sgi = q
+                    break
+                acc += Lq
+            if sgi is None or lens[sgi] < 1.0:
+                continue
+            u = (s_al - acc) / lens[sgi]
+            if min(u, 1 - u) * lens[sgi] < 2e-3 * total:
+                continue         # at a junction between segments the bounds jump
 
         def at(section, col):
             return tables[section][sgi][col] + u * (tables[section][sgi][col + 1] - tables[section][sgi][col])
@@ -339,7 +387,10 @@ def check_geometry(V, c, t):
             certainly_out = nn < tc_lo - slack or nn > th_hi + slack
             exp_f = tc_f <= nn <= th_f
             margin_f = min(abs(nn - tc_f), abs(nn - th_f))
-        if certainly_in and not inside:
+        if t['vary_lengths']:
+            if margin_f > 1e-3 * th_hi and exp_f != inside:
+                V.violation('interpolation:geometry-differs-from-the-linear-combination-at-the-trench-fraction:variable-lengths', dict(detail, interpolated_lengths=lens))
+        elif certainly_in and not inside:
             V.violation('interpolation:geometry-not-a-convex-combination:point-inside-both-sections-bounds-is-outside', detail)
         elif certainly_out and inside:
             V.violation('interpolation:geometry-not-a-convex-combination:point-outside-both-sections-bounds-is-inside', detail)
